@@ -170,6 +170,30 @@ def loop : St → List Round → St
   | s, [] => s
   | s, r :: rs => if allConsumed s then s else loop (waitRound s r) rs
 
+/-! ### the loop with task failures
+`wait` is a generator: after the second drain it yields the done futures in `future_to_task` order
+(submission order = worker index); the coordinator handles one outcome per yield, and with
+`continue_on_failure=False` `handle_failure` raises `LabError` at the first failed outcome — the generator is
+abandoned there and `run_tasks` exits by that exception. -/
+
+inductive Exit where
+  | running            -- the schedule ran out before the loop ended
+  | returned           -- `pending_task_count() == 0`: `run_tasks` returns
+  | raised (w : Nat)   -- `LabError` for the failed outcome of worker `w`
+
+/-- the outcomes one `wait` yields: the futures that became done in it, in `future_to_task` order -/
+def yieldOrder (n : Nat) (before after : List Nat) : List Nat :=
+  (List.range n).filter (fun w => after.contains w && !before.contains w)
+
+def runLoop (cof : Bool) (fails : Nat → Bool) : St → List Round → St × Exit
+  | s, [] => (s, if allConsumed s then .returned else .running)
+  | s, r :: rs =>
+    if allConsumed s then (s, .returned)
+    else
+      match (if cof then none else (yieldOrder s.n s.consumed (waitRound s r).consumed).find? fails) with
+      | some w => (waitRound s r, .raised w)
+      | none => runLoop cof fails (waitRound s r) rs
+
 def init (n : Nat) (recs : Nat → List Rec) : St :=
   { n := n, todo := recs, finished := fun _ => false, logq := [], resq := [], consumed := [], delivered := [] }
 
